@@ -161,6 +161,10 @@ func init() {
 			ctx, cancel := context.WithCancel(context.Background())
 			ipC := make(chan netip.Addr)
 			go func() {
+				// every pair starts at its own instant: whole-second waits of
+				// different pairs then never tie (timer ties are broken by the
+				// runtime, not by the plan), and every loop seeds its PRNG differently
+				time.Sleep(time.Duration(1+j*1009) * time.Nanosecond)
 				a.multicast(ctx, ipC)
 				w.log.Add(verifsim.Event{K: "mc.returned", Node: j})
 			}()
